@@ -292,6 +292,45 @@ func skipLatticeCase(seed uint64, idx int, props map[string]bool) *fw.Result {
 	return res
 }
 
+// retryStormCase - few tasks, many failed attempts: more retried attempts in one Run than the graph has vertices, with and
+// without buffered output, under every mode. Run has to return and every attempt's outcome and output are accounted for.
+func retryStormCase(seed uint64, idx int, props map[string]bool) *fw.Result {
+	r := newRng(seed, "C16-retrystorm", idx)
+	n := 1 + r.intn(3)
+	var edges [][2]int
+	if n > 1 {
+		edges = randomDag(r, n, r.intn(40))
+	}
+	plan := make([][]int, n)
+	retries := make([]int, n)
+	total := 0
+	for t := 0; t < n; t++ {
+		k := r.intn(6) // failed attempts in front of the final one
+		for a := 0; a < k; a++ {
+			plan[t] = append(plan[t], ERR)
+		}
+		plan[t] = append(plan[t], []int{OK, OK, ERR, SKIPPARENTS}[r.intn(4)])
+		retries[t] = k + r.intn(2) // exactly enough, or one to spare
+		total += k
+	}
+	serial, maxpar, mname := modeOf(idx)
+	spec := &Spec{N: n, Hist: canonHist(r, n, edges, retries), Plan: plan, Serial: serial, MaxPar: maxpar, PSeed: r.u64(), Buffer: idx%8 < 5}
+	spec.Lines = spec.Buffer && r.chance(1, 2)
+	spec.AttemptErrs = r.chance(1, 2)
+	res := newRes(map[string]interface{}{"spec": spec})
+	res.Cells = []string{fmt.Sprintf("retry-storm|%s|buffer=%v|retried>vertices=%v", mname, spec.Buffer, total > n)}
+	for k := 0; k < 3; k++ {
+		spec.Policy = []string{"rand", "all", "eager"}[k]
+		spec.HoldUS = 50
+		if v := runOne(spec, res, props); v != nil {
+			return v
+		}
+		spec.PSeed++
+	}
+	res.Sig = specShape(spec)
+	return res
+}
+
 // ------------------------------------------------------------------------------------------------
 // C13
 
@@ -588,6 +627,14 @@ func init() {
 				spec.HoldUS = 100
 				spec.Buffer = r.chance(1, 3)
 				cell += "|" + spec.Policy
+				switch {
+				case spec.MaxPar > 1 && (idx/4)%3 == 0:
+					spec.LimitFirst = 1 // a limit of one that is raised afterwards
+					cell += "|limit-set-twice"
+				case spec.MaxPar > 0 && (idx/4)%3 == 1:
+					spec.LimitFirst = spec.MaxPar + 3 // ... or a larger one that is lowered
+					cell += "|limit-set-twice"
+				}
 				if spec.MaxPar > 0 && r.chance(1, 4) {
 					// the same Graph object was run before with a larger limit: the limit in force is the one set last
 					spec.PreTasks = 2 + r.intn(4)
@@ -640,6 +687,7 @@ func init() {
 				}
 				spec.Nested = spec.QuietMask&1 == 0 && r.chance(1, 3)
 				spec.NestedPlain = spec.Nested && r.chance(1, 2)
+				spec.Lines = (idx/4)%2 == 1 // the output is made of complete lines
 				spec.ValWriter = r.chance(1, 4)
 				spec.Policy = []string{"all", "eager", "rand"}[r.intn(3)]
 				spec.HoldUS = r.intn(50)
@@ -681,13 +729,13 @@ func init() {
 		WorkersPerCPU: 3,
 		Technique:     "runtime monitoring under the Go race detector: invariants at the scheduler's idle-tick and loop-iteration hooks decided in logical time (fixpoint = deadlock, silent iterations = spinning scheduler, launched-but-not-entered tasks with free capacity = work conservation), goroutine-dump check that every task goroutine is blocked before any no-progress verdict, work-conservation check at fresh quiescent points, cycle/definition-error rule and topological check of DepthFirstSort, all on real graphs built by public-API call histories",
 		Rule: "construction histories over 3 tasks: ALL call sequences of length <= 4 (thorough: <= 5 sampled exhaustively by index) over {AddTask(x), TaskDependsOn(x,y), TaskDependsOn(x,y,z), TaskRetries(x,1), TaskRetries(x,0)} incl. re-adding known tasks before/after they got edges, duplicate edges, self edges, cycles, nil tasks, edges declared before AddTask; every history is run to completion or to a verdict under all outcomes ok and under random outcome plans, orders by DFS (small) or PRNG; " +
-			"random DAGs up to 12 vertices (with retries, failing scripts and cancellation points, DepthFirstSort called while the graph is still being built, a failing output writer) for work conservation and bounded progress; distinct = (history, plan, mode); non-trivial = the history re-adds a task, duplicates an edge, contains a cycle or has at least one edge",
+			"random DAGs up to 12 vertices (with retries, failing scripts and cancellation points, DepthFirstSort called while the graph is still being built, a failing output writer, a limit of one that is raised before the run) for work conservation and bounded progress; retry storms (1-3 tasks with up to 5 failed attempts each, buffered or not); distinct = (history, plan, mode); non-trivial = the history re-adds a task, duplicates an edge, contains a cycle or has at least one edge",
 		Assumptions: common,
 		Cases: func(tier string) int {
 			if tier == "thorough" {
-				return histCases(4) + 600000
+				return histCases(4) + 600000 + 20000
 			}
-			return histCases(3) + 4000
+			return histCases(3) + 4000 + 300
 		},
 		PerCaseTimeoutS: 120,
 		Run: func(seed uint64, idx int, tier string) *fw.Result {
@@ -695,6 +743,9 @@ func init() {
 			maxLen := 3
 			if tier == "thorough" {
 				maxLen = 4
+			}
+			if base := histCases(maxLen) + map[bool]int{false: 4000, true: 600000}[tier == "thorough"]; idx >= base {
+				return retryStormCase(seed, idx, allProps)
 			}
 			var hist []Call
 			var cell string
@@ -781,6 +832,9 @@ func init() {
 			}
 			spec.TickerZero = r.chance(1, 15)
 			spec.Colon = colon
+			if spec.MaxPar > 1 && (idx/3)%2 == 1 {
+				spec.LimitFirst = 1 // SetMaxParallel(1) first, the real limit afterwards: capacity is what was set last
+			}
 			if idx >= histCases(maxLen) && !m.DefErr && !m.Cycle && r.chance(1, 8) {
 				// the graph has been run before (a chain of tasks that completed); half of the new tasks depend on one of them
 				spec.PreTasks, spec.PreLink = 2+r.intn(3), true
